@@ -298,6 +298,19 @@ int main(int argc, char **argv)
         }
         bool ok = false;
         const auto ref = deliver(streams[si], {}, &ok);
+        if (ctx.replayCase.value(QStringLiteral("unsplit")).toBool()) {
+            std::vector<int> all;
+            for (int c = 1; c < streams[si].bytes.size(); ++c) {
+                all.push_back(c);
+            }
+            bool okb = true;
+            const QStringList bytewise = deliver(streams[si], all, &okb);
+            fprintf(stderr, "one read: %d event(s); byte by byte: %d event(s)\n", int(ref.size()), int(bytewise.size()));
+            if (ref.size() < 2 && okb && bytewise.size() >= 2) {
+                ctx.violation(QStringLiteral("C03/unsplit-delivery-loses-events:") + streams[si].name, QStringLiteral("one read: %1 event(s), byte by byte: %2").arg(ref.size()).arg(bytewise.size()), ctx.replayCase);
+            }
+            return ctx.finish();
+        }
         evalCase(si, cuts, ref);
         return ctx.finish();
     }
@@ -316,6 +329,21 @@ int main(int argc, char **argv)
             ctx.count(QStringLiteral("streams"));
             ctx.count(QStringLiteral("reference_events"), ref.size());
             if (ref.size() < 2) {
+                // every corpus stream has at least a header and one more event: if the unsplit delivery shows fewer while the
+                // byte-wise delivery shows them, the unsplit delivery lost them -- a violation, not a vacuous run
+                std::vector<int> all;
+                for (int c = 1; c < n; ++c) {
+                    all.push_back(c);
+                }
+                bool okb = true;
+                const QStringList bytewise = deliver(sc, all, &okb);
+                if (okb && bytewise.size() >= 2) {
+                    QJsonArray cuts;
+                    ctx.violation(QStringLiteral("C03/unsplit-delivery-loses-events:") + sc.name,
+                                  QStringLiteral("stream '%1' delivered in one read gives %2 event(s), delivered byte by byte %3: %4").arg(sc.name).arg(ref.size()).arg(bytewise.size()).arg(bytewise.join(QStringLiteral(" | ")).left(300)),
+                                  QJsonObject { { QStringLiteral("stream"), si }, { QStringLiteral("cuts"), cuts }, { QStringLiteral("name"), sc.name }, { QStringLiteral("unsplit"), true } });
+                    continue;
+                }
                 fprintf(stderr, "INTERNAL: reference for %s has only %d events (vacuous)\n", qPrintable(sc.name), int(ref.size()));
                 return 3;
             }
